@@ -206,7 +206,9 @@ def run(ctx):
             ok = vclose(val[0], parse_vec_q(a)) and vclose(val[1], parse_vec_q(b))
         elif kind == "fnum":
             f = hex2f(out)
-            ok = float(val) == f or abs(float(val) - f) <= 1e-12 * (1 + abs(f))
+            ok = float(val) == f or abs(float(val) - f) <= 1e-12 * (1 + abs(f)) or (f != f and float(val) != float(val))
+            if f != f:
+                ctx.cov.hit("nan-on-both-sides(unreachable weight)")
             if float(val) == f:
                 ctx.cov.hit("float-bit-identical")
         elif kind == "fvec":
@@ -230,7 +232,7 @@ def other_modules(ctx):
     N = ctx.scale(120, 3000)
     for i in range(N):
         r = gen.rng_for(ctx.seed, "C03-o", i)
-        cls = ["EllipsoidART", "GaussianART", "BayesianART", "QuadraticNeuronART"][i % 4]
+        cls = ["EllipsoidART", "GaussianART", "BayesianART", "QuadraticNeuronART", "HypersphereART"][i % 5]
         d = r.randint(1, 3)
         spec = specs.elem_spec(r, cls, d)
         m = make(spec)
@@ -272,6 +274,14 @@ def other_modules(ctx):
 
 
 def reference(cls, p, d, x, w, counts):
+    if cls == "HypersphereART":
+        c, R = w[:-1], w[-1]
+        dist = np.sqrt((x - c) @ (x - c))
+        T = (p["r_hat"] - max(R, dist)) / (p["r_hat"] - R + p["alpha"])
+        M = 1 - max(R, dist) / p["r_hat"]
+        Rn = R + p["beta"] / 2 * (max(R, dist) - R)
+        cn = c + p["beta"] / 2 * (x - c) * ((1 - min(R, dist) / dist) if dist > 0 else 0.0)
+        return T, M, np.concatenate([cn, [Rn]])
     if cls == "EllipsoidART":
         c, ax, R = w[:d], w[d:-1], w[-1]
         diff = x - c
